@@ -329,7 +329,7 @@ func genDetScenario(r *verifsim.Run, focus string) *aScenario {
 			pFFC = r.OneOf(10, 30, 60)
 		}
 	}
-	if (focus == "C07" || focus == "C09") && r.Chance(1, 4) {
+	if (focus == "C07" || focus == "C09" || focus == "C15") && r.Chance(1, 4) {
 		// storage failures must not change what the detector does (e.g. a failed stop at a camera reset)
 		for i, k := 0, r.Range(1, 4); i < k; i++ {
 			sc.Plans[zz.SinkMotion].Add('X', r.Draw(6))
